@@ -15,6 +15,7 @@ structural correspondence of `check.py C09`), for every number of players
 -/
 import TlxVerif.Proofs.C09Start
 import TlxVerif.Gen.C09Types
+import TlxVerif.Proofs.C09Stale
 namespace TlxVerif.C09
 
 variable {α : Type}
@@ -409,6 +410,26 @@ theorem reach_winner_unguarded {lt : α → α → Bool} (hlt : SWO lt) {v : Var
   have := hmin j kj (by rw [List.getElem?_map, hj]; rfl)
   rw [hv] at this
   exact this
+
+/-! ### the consumed key is never read -/
+
+/-- The classes take `const ValueType* keyp` and nothing in their contract asks the caller to keep
+a key alive after it has been reported as the winner and consumed.  `delete_min_insert` honours
+that: its result is the same whatever the memory behind the previous winner's key holds by then
+(a head slot refilled in place, a released node) — it reads `losers_[0].source` only. -/
+theorem deleteMinInsert_consumed_key_unread (t : Tree α) (lt : α → α → Bool) (dflt : α) (key : Option α) (x : α) :
+    (t.clobberWinnerKey x).deleteMinInsert lt dflt key = t.deleteMinInsert lt dflt key :=
+  deleteMinInsert_ignores_winner_key t lt dflt key x
+
+/-- hence every replace step of a caller that recycles the storage of consumed keys re-establishes
+the invariant exactly as `replace_TInv` says -/
+theorem replace_TInv_recycled {lt : α → α → Bool} (hlt : SWO lt) {sentinel dflt : α} {t : Tree α}
+    {pl : List (Option α)} (inv : TInv lt sentinel dflt t pl) {W : Entry α} (hW : rd t.losers 0 = some W)
+    (hreal : W.source < pl.length) (key : Option α) (x : α) :
+    ∃ t', (t.clobberWinnerKey x).deleteMinInsert lt dflt key = some t' ∧ t'.v = t.v ∧
+      TInv lt sentinel dflt t' (pl.set W.source key) := by
+  rw [deleteMinInsert_consumed_key_unread]
+  exact replace_TInv hlt inv hW hreal key
 
 /-! ### the index types (translator) -/
 
